@@ -72,10 +72,13 @@ def snap_task(itask) -> dict:
     st = itask.state
     outs = sorted(st.outputs.get_completed_outputs())
     prereqs = []
-    for pr in st.prerequisites:
+    pgroups = []
+    for gi, pr in enumerate(st.prerequisites):
+        gsat = bool(pr.is_satisfied())
         for key, val in pr.items():
             prereqs.append([str(key.point), key.task, key.output,
                             bool(val), val if isinstance(val, str) else None])
+            pgroups.append([str(key.point), key.task, key.output, gi, gsat])
     return {
         'id': itask.identity, 'point': str(itask.point),
         'name': itask.tdef.name, 'status': st.status,
@@ -84,6 +87,7 @@ def snap_task(itask) -> dict:
         'flows': sorted(itask.flow_nums), 'submit_num': itask.submit_num,
         'outputs': outs, 'prereqs': sorted(prereqs, key=repr),
         'prereqs_sat': bool(itask.prereqs_are_satisfied()),
+        'prereq_groups': pgroups,
         'xtriggers': dict(st.xtriggers),
         'manual': bool(itask.is_manual_submit),
         'wojp': bool(itask.waiting_on_job_prep),
